@@ -302,10 +302,141 @@ def build_rr(ck, src, obs=None):
     return R
 
 
+def build_rr_reply(ck, src, obs=None):
+    """One inbound frame handled by the spawned receive loop of TransportHandle::start_message_receiving_system (its `async move` block is executed as a
+    state machine: the channel yields exactly one frame, then closes).  The frame parser, the envelope decoder and the topic test are the ENVIRONMENT
+    (arbitrary outcomes); the pending /rr/ table is ARBITRARY.  A pending request is completed only by a response envelope carrying its id that arrives
+    from the expected peer, at most once, and nothing else in the table changes."""
+    eng = ck.engine(unwind=4) if obs is None else ck.meta_engine()
+    mid, oth, sender = src.bv("mid", 64), src.bv("other", 64), src.bv("sender", 64)
+    keepalive, parsed, is_rr, env_ok, is_resp = src.bool("frame.keepalive"), src.bool("frame.parsed"), src.bool("frame.topic_is_rr"), src.bool("frame.envelope_ok"), src.bool("frame.is_response")
+    probes = {"mid": mid, "other": oth}
+    tmpl = rr_template()
+    reqs0 = src.map("R.reqs", 64, tmpl, probes)
+    hyps = list(src.hyps) + [mid != oth]
+    chan = lambda m, k: vmap(m.val, lambda a: z3.Select(a, k)).f[0].f[0]  # noqa: E731
+    expd = lambda m, k: vmap(m.val, lambda a: z3.Select(a, k)).f[1].id  # noqa: E731
+    p_mid0, p_oth0 = z3.Select(reqs0.present, mid), z3.Select(reqs0.present, oth)
+    hyps.append(z3.Implies(z3.And(p_mid0, p_oth0), chan(reqs0, mid) != chan(reqs0, oth)))
+    if obs is None:
+        st = State()
+        rreqs = eng.alloc(st, reqs0)
+        names = ck.crate.find(r"start_message_receiving_system::\{closure#0\}::\{closure#0\}$")
+        if len(names) != 1:
+            raise harness.SymError("receive loop body not found")
+        body = ck.crate.body(names[0])
+        up = body.upvars
+        if set(up) != {"rx", "peers_for_recv", "active_requests", "event_tx"}:
+            raise harness.SymError(f"receive loop captures changed: {sorted(up)}")
+        caps = [None] * 4
+        caps[up["rx"]] = VStruct([bv(0, 64)], "MpscReceiver")
+        caps[up["peers_for_recv"]] = eng.alloc(st, VOpaque("peers"))
+        caps[up["active_requests"]] = rreqs
+        caps[up["event_tx"]] = VOpaque("event_tx")
+        from values import VBlob, VCoroutine
+
+        frame = VBlob(src.bv("frame.id", 64), src.bv("frame.len", 64))
+        payload = VBlob(src.bv("payload.id", 64), src.bv("payload.len", 64))
+        calls = {"recv": 0}
+        eng.deliveries = []
+        eng.broadcasts = []
+
+        def h_recv(e, s_, a, d, c, m):
+            calls["recv"] += 1
+            first = calls["recv"] == 1
+            item = VStruct([VOpaque("ant PeerId"), frame])
+            return VStruct([VEnum(OPTION, bv(1 if first else 0, 8), {0: (), 1: (item,)})], "ReadyFuture")
+
+        def h_pid(e, s_, a, d, c, m):
+            return VStr(sender)
+
+        def h_touch(e, s_, a, d, c, m):
+            return VStruct([UNIT], "ReadyFuture")
+
+        def h_eq(e, s_, a, d, c, m):
+            return keepalive
+
+        info = eng.enum_info("P2PEvent")
+        vi = info.index("Message")
+        fnames = [f for f, _ in [v for v in eng.adts["P2PEvent"][0].variants if v[0] == "Message"][0][1]]
+        data = VBlob(src.bv("data.id", 64), src.bv("data.len", 64))
+        fv = {"topic": VStr(src.bv("topic", 64)), "source": VStr(sender), "data": data}
+        event = VEnum(info, bv(vi, 8), {vi: tuple(fv[n] for n in fnames)})
+
+        def h_parse(e, s_, a, d, c, m):
+            return VEnum(OPTION, z3.If(parsed, bv(1, 8), bv(0, 8)), {0: (), 1: (event,)})
+
+        def h_starts(e, s_, a, d, c, m):
+            return is_rr
+
+        envv = mk_fill(eng, "RequestResponseEnvelope", {"message_id": VStr(mid), "is_response": is_resp, "payload": payload})
+
+        def h_env(e, s_, a, d, c, m):
+            return VEnum(RESULT, z3.If(env_ok, bv(0, 8), bv(1, 8)), {0: (envv,), 1: (VOpaque("postcard::Error"),)})
+
+        def h_bcast(e, s_, a, d, c, m):
+            eng.broadcasts.append(s_.pc)
+            return UNIT
+
+        S = eng.summaries
+        S.insert(0, (re.compile(r"^tokio::sync::mpsc::Receiver::<.*>::recv$"), h_recv, "ENVIRONMENT mpsc::Receiver::recv -> exactly one frame from an arbitrary authenticated sender, then the channel is closed"))
+        S.insert(0, (re.compile(r"^(transport_handle::)?ant_peer_id_to_string$"), h_pid, "ant_peer_id_to_string -> the transport identity of the sender"))
+        S.insert(0, (re.compile(r"^(transport_handle::)?touch_peer_last_seen$"), h_touch, "touch_peer_last_seen -> no effect on the pending table"))
+        S.insert(0, (re.compile(r"^<Vec<u8> as PartialEq<&\[u8\]>>::eq$"), h_eq, "frame == KEEPALIVE_PAYLOAD -> arbitrary (a predicate of the frame bytes)"))
+        S.insert(0, (re.compile(r"^(network::)?parse_protocol_message$"), h_parse, "ENVIRONMENT parse_protocol_message -> arbitrary outcome; a surfaced event carries the connection identity (C05 decides that)"))
+        S.insert(0, (re.compile(r"^core::str::<impl str>::starts_with::<&str>$"), h_starts, "topic.starts_with(\"/rr/\") -> arbitrary (a predicate of the topic)"))
+        S.insert(0, (re.compile(r"^postcard::from_bytes::<.*RequestResponseEnvelope>$"), h_env, "ENVIRONMENT postcard::from_bytes::<RequestResponseEnvelope> -> arbitrary decode result"))
+        S.insert(0, (re.compile(r"^(transport_handle::)?broadcast_event$"), h_bcast, "broadcast_event -> recorded (the frame is surfaced as an event)"))
+        co = VCoroutine("{async block@receive loop}", names[0].rsplit("::{closure#0}", 1)[0], caps, bv(0, 32), {})
+        ref = eng.alloc(st, co)
+        r2 = eng.run_body(body, [VStruct([ref], "Pin"), eng.alloc(st, VOpaque("task::Context"))], st)
+        if r2 is None:
+            raise harness.SymError("receive loop diverges")
+        st2, poll = r2
+        eng.oblige(st2, "suspension: the receive loop returned Pending", poll.idx != bv(0, 8), kind="assert")
+        pc = z3.simplify(z3.And(st2.pc, poll.idx == bv(0, 8)))
+        reqs1 = eng.load(st2, rreqs)
+        dl = list(eng.deliveries)
+        to_mid = z3.Or(*[z3.And(d["pc"], d["chan"] == chan(reqs0, mid)) for d in dl]) if dl else z3.BoolVal(False)
+        elsewhere = z3.Or(*[z3.And(d["pc"], d["chan"] != chan(reqs0, mid)) for d in dl]) if dl else z3.BoolVal(False)
+        twice = z3.Or(*[z3.And(dl[i]["pc"], dl[j]["pc"]) for i in range(len(dl)) for j in range(i)]) if len(dl) > 1 else z3.BoolVal(False)
+        pay_ok = z3.And(*[z3.Implies(d["pc"], flatten(d["value"])[0] == payload.id) for d in dl]) if dl else z3.BoolVal(True)
+        surfaced = z3.Or(*eng.broadcasts) if eng.broadcasts else z3.BoolVal(False)
+    else:
+        pc = z3.BoolVal(True)
+        reqs1 = harness.obs_map(obs, "post.reqs", 64, tmpl, probes)
+        to_mid = z3.BoolVal(bool(obs["delivered_mid"]))
+        elsewhere = z3.BoolVal(bool(obs["delivered_other"]))
+        twice = z3.BoolVal(False)
+        pay_ok = z3.BoolVal(bool(obs.get("payload_ok", True)))
+        surfaced = z3.BoolVal(bool(obs.get("surfaced", False)))
+    is_response_frame = z3.And(z3.Not(keepalive), parsed, is_rr, env_ok, is_resp)
+    authorised = expd(reqs0, mid) == sender
+
+    def same(k):
+        a = vmap(reqs0.val, lambda x: z3.Select(x, k))
+        b = vmap(reqs1.val, lambda x: z3.Select(x, k))
+        p0, p1 = z3.Select(reqs0.present, k), z3.Select(reqs1.present, k)
+        return z3.And(p1 == p0, z3.Implies(p0, z3.And(*[x == y for x, y in zip(flatten(a), flatten(b))])))
+
+    G = {}
+    G["a_reply_completes_only_the_request_with_its_identifier_and_only_from_the_expected_peer"] = z3.Implies(to_mid, z3.And(is_response_frame, p_mid0, authorised))
+    G["no_other_request_is_completed"] = z3.Not(elsewhere)
+    G["a_request_is_completed_at_most_once_and_then_leaves_the_table"] = z3.And(z3.Not(twice), z3.Implies(to_mid, z3.Not(z3.Select(reqs1.present, mid))))
+    G["matching_reply_from_the_expected_peer_is_delivered"] = z3.Implies(z3.And(is_response_frame, p_mid0, authorised), to_mid)
+    G["delivered_reply_carries_the_envelope_payload"] = pay_ok
+    G["other_pending_requests_are_untouched"] = same(oth)
+    G["a_reply_that_is_not_delivered_leaves_the_request_pending_and_unchanged"] = z3.Implies(z3.Not(to_mid), same(mid))
+    G["an_rr_response_is_consumed_everything_else_that_parses_is_surfaced"] = surfaced == z3.And(z3.Not(keepalive), parsed, z3.Not(z3.And(is_rr, env_ok, is_resp)))
+    R = {"eng": eng, "hyps": hyps, "goals": {g: z3.Implies(pc, f) for g, f in G.items()}}
+    R["reach"] = {"reach_delivered": z3.And(pc, to_mid), "reach_wrong_peer": z3.And(pc, is_response_frame, p_mid0, z3.Not(authorised)), "reach_surfaced": z3.And(pc, surfaced)}
+    return R
+
+
 def register(ck, tag, driver, params, builder):
     src = Src()
     R = builder(src, None)
-    rp = harness.make_replayer(ck, "dht_network_manager" if driver != "rr_send" else "transport_handle", driver, lambda s, obs: builder(s, obs), params)
+    rp = harness.make_replayer(ck, "dht_network_manager" if driver not in ("rr_send", "rr_reply") else "transport_handle", driver, lambda s, obs: builder(s, obs), params)
     ck.register_src(driver, params, src)
     for g, f in R["goals"].items():
         ck.prove(f"{tag}/{g}", R["eng"], R["hyps"], f, on_sat=rp, meta={"goal": g, "prefer": R.get("prefer") or []})
@@ -322,6 +453,8 @@ def builder_for(ck, driver, params):
         return lambda s, obs: build_send(ck, s, obs)
     if driver == "rr_send":
         return lambda s, obs: build_rr(ck, s, obs)
+    if driver == "rr_reply":
+        return lambda s, obs: build_rr_reply(ck, s, obs)
     raise harness.SymError("unknown driver " + driver)
 
 
@@ -330,6 +463,7 @@ def run(tier):
     ck.guarded("dht_response", lambda: register(ck, "dht_response", "dht_response", {}, builder_for(ck, "dht_response", {})))
     ck.guarded("dht_send", lambda: register(ck, "dht_send", "dht_send", {}, builder_for(ck, "dht_send", {})))
     ck.guarded("rr_send", lambda: register(ck, "rr_send", "rr_send", {}, builder_for(ck, "rr_send", {})))
+    ck.guarded("rr_reply", lambda: register(ck, "rr_reply", "rr_reply", {}, builder_for(ck, "rr_reply", {})))
     ck.run_queries()
     ck.out.bounds = ["DhtNetworkManager::handle_dht_response: one reply (arbitrary message id, claimed source, transport sender, result present or not) against an ARBITRARY pending table "
                      "(HashMap<String, DhtOperationContext> as SMT arrays over abstract string identities; contacted-node lists of length <= 2; channels as identities), observed at the "
